@@ -390,6 +390,18 @@ theorem nlsf_decode_domain_from_decoder {rate : Opus.SilkSyms.Rate} {nb cc ps : 
 
 example : (cbOfRate .wb).order = 16 ∧ (cbOfRate .nb).nVectors = 32 := by decide
 
+/-- Likewise for `decode_pitch_nowrap`: the contour alphabet of the symbol decoder
+    (`psDec->pitch_contour_iCDF`, C03) has exactly as many symbols as the contour codebook that
+    `silk_decode_pitch` selects for the same rate and sub-frame count (`contourOk`), and a decoded
+    contour index is below that number; the lag index is stored in an `opus_int16` by the decoder. -/
+theorem pitch_domain_from_decoder {rate : Opus.SilkSyms.Rate} {nb cc ps : Nat} {pl : Int}
+    {ix : Opus.SilkSyms.Indices} (h : Opus.SilkSymsProofs.IndicesOk rate nb cc ps pl ix) (hnb : nb = 2 ∨ nb = 4) :
+    contourOk rate nb = true ∧
+    (ix.signalType = 2 → ix.contourIndex < (Opus.SilkSyms.pitchContour rate nb).length) :=
+  ⟨contour_domain rate nb hnb, h.contour⟩
+
+example : contourOk .wb 4 = true ∧ pitchCodebook 16 4 = .ok (SilkNlsf.cbLagsStage3, 34) := by decide +kernel
+
 /-- `silk_log2lin` (log2lin.c:36-57) on its whole non-saturating domain `0 ≤ inLog_Q7 < 3967`
     (outside it the function returns a constant without arithmetic): every 32-bit value
     (`log2linTrace`: `1 << (inLog_Q7 >> 7)`, `frac_Q7`, `128 - frac_Q7`, the `silk_SMULBB` product, the
